@@ -46,15 +46,20 @@ def c9_terms(b, r):
 
 
 def einsum_retry(b, r):
-    """known finding einsum_backward_single_use: a backward raised, and a later backward through a graph that
-    contains an einsum raised AssertionError (stale per-op cache) instead of InvalidBackprop"""
-    seen_fail = False
+    """known finding einsum_backward_single_use: EinSum.backward_var zeroes a per-(tensor, label) cache and never resets it, so after a
+    backward pass that was ABORTED by InvalidBackprop, a later backward through a graph containing an einsum skips that node's gradient
+    contributions: it ends in AssertionError, or in InvalidBackprop again but with different partial gradients.  Predicate: the history
+    has an einsum, some backward raised InvalidBackprop, and another backward follows it."""
     has_einsum = any(s["op"] == "apply" and s["fn"] == "einsum" for s in b.stmts)
+    if not has_einsum:
+        return False
+    seen_fail = False
     for s, exc in zip(b.stmts, r["outcomes"]):
-        if s["op"] == "backward" and exc == "InvalidBackprop":
-            seen_fail = True
-        if s["op"] == "backward" and exc == "Assertion":
-            return seen_fail and has_einsum
+        if s["op"] == "backward":
+            if seen_fail:
+                return True
+            if exc == "InvalidBackprop":
+                seen_fail = True
     return False
 
 
@@ -83,8 +88,8 @@ def run(rep, work, tier, seed, props, replay=None):
     bad = [cmp_idx[j] for j in gh.model_failing([kb[i] for i in cmp_idx], [kr[i] for i in cmp_idx], work, "c09m")]
     if any(retry):
         if "einsum_backward_single_use" in kf:
-            rep.known("einsum_backward_single_use", "after an aborted backward pass, backward through the same EinSum node raises AssertionError "
-                                                    "('tensor with no gradient') instead of InvalidBackprop (%d histories)" % sum(retry))
+            rep.known("einsum_backward_single_use", "after an aborted backward pass, a later backward through an EinSum node skips its gradient contributions "
+                                                    "(AssertionError 'tensor with no gradient', or different partial gradients) (%d histories)" % sum(retry))
         else:
             i = [k for k in range(len(kb)) if retry[k]][0]
             rep.violation({"kind": "backward raised AssertionError instead of InvalidBackprop after an aborted pass through an EinSum node",
